@@ -7,21 +7,54 @@ from vf.gen import drivers as D
 from vf.ref import number as RN
 
 
-def is_enabled(drv, gattr, vattr):
+class Track:
+    """Flags and states tracked from the generated definition and the
+    history of operations (independent of the driver's own bookkeeping)."""
+
+    def __init__(self, spec):
+        self.g = {}
+        self.v = {}
+        self.e = {}
+        self.state = {}
+        for gattr, vattr, g, v in D.locate(spec):
+            self.g[gattr] = bool(g.get("enabled", True))
+            self.v[(gattr, vattr)] = bool(v.get("enabled", True))
+            self.state[(gattr, vattr)] = v.get("state") or "Ok"
+            for e in v["elements"]:
+                self.e[(gattr, vattr, e["attr"])] = bool(e.get("enabled", True))
+
+    def apply(self, op):
+        name = op[0]
+        if name == "venable":
+            self.v[(op[2], op[3])] = bool(op[4])
+        elif name == "genable":
+            self.g[op[2]] = bool(op[3])
+        elif name == "eenable":
+            self.e[(op[2], op[3], op[4])] = bool(op[5])
+        elif name == "state":
+            self.state[(op[2], op[3])] = op[4]
+
+    def enabled(self, gattr, vattr):
+        return self.g[gattr] and self.v[(gattr, vattr)]
+
+
+def is_enabled(drv, gattr, vattr, track=None):
+    if track is not None:
+        return track.enabled(gattr, vattr)
     return bool(D.vector_of(drv, gattr, vattr).enabled)
 
 
-def expected_property(drv, spec_name, gattr, vattr, g, v, values=None):
+def expected_property(drv, spec_name, gattr, vattr, g, v, values=None, track=None):
     """Expected property as a dict, or None when it is not enabled.
     values: optional {element name: raw value}; default: read .value."""
     vec = D.vector_of(drv, gattr, vattr)
-    if not vec.enabled:
+    if not is_enabled(drv, gattr, vattr, track):
         return None
     kind = v["kind"]
     prop = {
         "device": drv.name, "name": v["name"], "kind": kind, "group": g["name"],
         "label": v["label"] if v.get("label") else v["name"],
-        "state": vec.state_,
+        "state": track.state[(gattr, vattr)] if track is not None else vec.state_,
     }
     if kind != "Light":
         prop["perm"] = v["perm"] if v.get("perm") else "rw"
@@ -31,7 +64,7 @@ def expected_property(drv, spec_name, gattr, vattr, g, v, values=None):
     els = []
     for e in v["elements"]:
         el = getattr(vec, e["attr"])
-        if not el.enabled:
+        if not (track.e[(gattr, vattr, e["attr"])] if track is not None else el.enabled):
             continue
         raw = values[e["name"]] if values is not None and e["name"] in values else el.value
         d = {"name": e["name"], "label": e["label"] if e.get("label") else e["name"], "raw": raw}
@@ -42,10 +75,10 @@ def expected_property(drv, spec_name, gattr, vattr, g, v, values=None):
     return prop
 
 
-def expected_device(drv, spec):
+def expected_device(drv, spec, track=None):
     out = {}
     for gattr, vattr, g, v in D.locate(spec):
-        p = expected_property(drv, spec["name"], gattr, vattr, g, v)
+        p = expected_property(drv, spec["name"], gattr, vattr, g, v, track=track)
         if p is not None:
             out[v["name"]] = p
     return out
